@@ -431,7 +431,7 @@ pub fn c05_after(run: &mut Run, op: &Op, ret: Option<u32>, pre: C05Pre, out: &mu
     let quiet = !run.c05.equated_since_close;
     let mut bad = |sig: &str, msg: String| out.violations.push((format!("c05:{sig}"), msg));
     match op {
-        Op::New(t) => {
+        Op::New(t) | Op::NewIn(t, _) => {
             let id = ret.unwrap();
             if (id as usize) < pre.counters[*t] { bad("new-not-fresh", format!("new_{}() returned {id}, an id that already existed", snake(&th.types[*t].name))); }
             for i in 0..counters[*t] as u32 { if i != id && run.model.are_equal(*t, i, id) { bad("new-not-distinct", format!("new element {id} is equal to the existing element {i}")); } }
